@@ -239,11 +239,22 @@ impl<T: ServiceStateActions + Send> ServiceManager<T> {
 
     pub async fn remove(&mut self, keep_directories: bool) -> Result<()> {
         if let ServiceStatus::Running = self.service.status() {
-            if self
+            let is_running = match self
                 .service_control
                 .get_process_pid(&self.service.bin_path())
-                .is_ok()
             {
+                Ok(_) => true,
+                Err(ServiceError::ServiceProcessNotFound(_)) => false,
+                // Only a process that is really gone lets us mark the service as stopped below.
+                Err(err) => {
+                    error!(
+                        "Could not determine whether {} is running: {err}",
+                        self.service.name()
+                    );
+                    return Err(err.into());
+                }
+            };
+            if is_running {
                 error!(
                     "Service {} is already running. Stop it before removing it",
                     self.service.name()
